@@ -25,6 +25,7 @@ pub fn run_enumerated(ctx: &mut Ctx, i: u64) -> Verdict {
         label: format!("conforming server advertising {name}"),
         bad_credentials: false,
         password: crate::rsim::SSH_PASSWORD.to_string(),
+        big_request: 0,
     };
     ev!(ctx, "scenario {}/{}", kind.name(), sc.label);
     let o = run_scenario(ctx, &sc);
